@@ -311,11 +311,174 @@ Fixpoint run_obs (cfg : config) (s : state) (ops : list op) : list (list Z) :=
       (ret_row r ++ state_row cfg s') :: run_obs cfg s' rest
   end.
 
-Definition case := (config * list op)%type.
+(* ====================================================================== *)
+(* Part 1b: overlapping digest passes                                       *)
+
+(* digest() takes its items under the lock and then runs the digesters
+   OUTSIDE it, so other calls - of other threads - run between two digester
+   calls of one pass, among them further digest passes.  A pass is split at
+   its digester calls:
+
+     PassBegin p k   thread p calls digest(k): the items are taken off the
+                     queue (atomically, under the lock); with no item the
+                     call returns at once, otherwise thread p is now inside
+                     the digester of its first item
+     PassStep p      the digester thread p is in returns / raises, digest()
+                     does its bookkeeping for that item (disposed, errors,
+                     recycled, counters) and enters the digester of the next
+                     item - or, after the last one, updates the recycling
+                     bin and RETURNS its DigestResult
+     Atomic o        any call that runs without another one in between
+                     (ingest holds the lock from beginning to end)
+
+   [p_res] are the LOCAL variables disposed / errors / recycled of the pass:
+   every pass has its own.  Ghost: [p_taken] = the items the pass took;
+   [c_done] = (items taken, DigestResult) of every digest call that has
+   returned, most recent first. *)
+
+Record pass := mkPass {
+  p_id : Z;
+  p_todo : list item;       (* still to process; the head is inside its digester *)
+  p_res : dres;
+  p_taken : list item }.
+
+Record cstate := mkC {
+  c_base : state;
+  c_open : list pass;
+  c_done : list (list item * dres) }.
+
+Definition cinit : cstate := mkC init [] [].
+
+Inductive cop :=
+| Atomic (o : op)
+| PassBegin (p : Z) (k : option Z)
+| PassStep (p : Z).
+
+Inductive cret :=
+| CRet (r : ret)      (* the call returned *)
+| CPaused             (* the thread is inside a digester *)
+| CBad.               (* not a call: label in use / no such pass *)
+
+Fixpoint find_pass (p : Z) (l : list pass) : option pass :=
+  match l with
+  | [] => None
+  | x :: r => if p_id x =? p then Some x else find_pass p r
+  end.
+
+(* replace (Some) or drop (None) the first pass labelled p *)
+Fixpoint set_pass (p : Z) (new : option pass) (l : list pass) : list pass :=
+  match l with
+  | [] => []
+  | x :: r =>
+      if p_id x =? p then match new with Some y => y :: r | None => r end
+      else x :: set_pass p new r
+  end.
+
+(* self._recycling_bin.update(recycled) at the end of digest() *)
+Definition finish (s : state) (r : dres) : state := set_bin s (merge (d_recycled r) (bin s)).
+
+Definition dres0 : dres := mkDres 0 [] [].
+
+Definition taken_by (o : op) (s : state) : list item :=
+  match o with DigestOp k => to_process k (queue s) | _ => [] end.
+
+Definition catomic (cfg : config) (o : op) (cs : cstate) : cstate * cret :=
+  let '(s', r) := step cfg (c_base cs) o in
+  (mkC s' (c_open cs)
+       (match r with RDigest d => (taken_by o (c_base cs), d) :: c_done cs | _ => c_done cs end),
+   CRet r).
+
+Definition cbegin (cfg : config) (p : Z) (k : option Z) (cs : cstate) : cstate * cret :=
+  match find_pass p (c_open cs) with
+  | Some _ => (cs, CBad)
+  | None =>
+      let s := c_base cs in
+      let items := to_process k (queue s) in
+      let s0 := set_queue s (after_take k (queue s)) in
+      match items with
+      | [] => (mkC (finish s0 dres0) (c_open cs) (([], dres0) :: c_done cs), CRet (RDigest dres0))
+      | _ :: _ => (mkC s0 (mkPass p items dres0 items :: c_open cs) (c_done cs), CPaused)
+      end
+  end.
+
+Definition cpstep (cfg : config) (p : Z) (cs : cstate) : cstate * cret :=
+  match find_pass p (c_open cs) with
+  | None => (cs, CBad)
+  | Some ps =>
+      match p_todo ps with
+      | [] => (cs, CBad)
+      | it :: rest =>
+          let '(s1, r1) := digest_item cfg false it (c_base cs) (p_res ps) in
+          match rest with
+          | [] => (mkC (finish s1 r1) (set_pass p None (c_open cs)) ((p_taken ps, r1) :: c_done cs),
+                   CRet (RDigest r1))
+          | _ :: _ => (mkC s1 (set_pass p (Some (mkPass p rest r1 (p_taken ps))) (c_open cs)) (c_done cs),
+                       CPaused)
+          end
+      end
+  end.
+
+Definition cstep (cfg : config) (cs : cstate) (o : cop) : cstate * cret :=
+  match o with
+  | Atomic o' => catomic cfg o' cs
+  | PassBegin p k => cbegin cfg p k cs
+  | PassStep p => cpstep cfg p cs
+  end.
+
+Definition crun_from (cfg : config) (cs : cstate) (ops : list cop) : cstate :=
+  fold_left (fun cs o => fst (cstep cfg cs o)) ops cs.
+
+Definition crun (cfg : config) (ops : list cop) : cstate := crun_from cfg cinit ops.
+
+(* items taken by a pass that has not processed them yet: neither queued nor fated *)
+Definition inflight (cs : cstate) : list item := flat_map p_todo (c_open cs).
+
+(* every id in the `errors` of a DigestResult: the returned ones, and the ones being built *)
+Definition reported_ids (cs : cstate) : list Z :=
+  flat_map (fun d => d_errors (snd d)) (c_done cs) ++ flat_map (fun ps => d_errors (p_res ps)) (c_open cs).
+
+(* what the digester (or on_toxic) of an item does, whatever the log is *)
+Definition verdict (cfg : config) (it : item) : presult := fst (process cfg it []).
+Definition raises (cfg : config) (it : item) : bool :=
+  match verdict cfg it with PRaise => true | POk _ => false end.
+Definition pass_fate (cfg : config) (it : item) : fate := if raises cfg it then Reported else Digested.
+
+(* the DigestResult [r] says exactly what happened to the items [l]: the ones
+   whose digester returned are counted, the others are listed, in order *)
+Definition accounts (cfg : config) (l : list item) (r : dres) : Prop :=
+  d_disposed r = lenZ (filter (fun it => negb (raises cfg it)) l) /\
+  rev (d_errors r) = ids (filter (raises cfg) l).
+
+(* ---- correspondence ---------------------------------------------------- *)
+
+Definition cret_row (r : cret) : list Z :=
+  match r with CRet r => ret_row r | CPaused => [3] | CBad => [-5] end.
+
+(* as state_row; "reported" is what the DigestResults that were RETURNED list *)
+Definition cstate_row (cfg : config) (cs : cstate) : list Z :=
+  let s := c_base cs in
+  [qlen s; n_ingested s; n_digested s; n_recycled s]
+    ++ map (by_type s) all_types ++ [lenZ (bin s)]
+    ++ [qlen s; max_queue cfg] ++ map (fun t => count_type t (queue s)) all_types
+    ++ [qlen s] ++ ids (queue s)
+    ++ [lenZ (bin s)] ++ flat_pairs (bin s)
+    ++ [lenZ (toxlog s)] ++ rev (toxlog s)
+    ++ [lenZ (flat_map (fun d => d_errors (snd d)) (c_done cs));
+        nfate AutoDiscarded s + nfate EmergFail s; nfate Expired s].
+
+Fixpoint crun_obs (cfg : config) (cs : cstate) (ops : list cop) : list (list Z) :=
+  match ops with
+  | [] => []
+  | o :: rest =>
+      let '(cs', r) := cstep cfg cs o in
+      (cret_row r ++ cstate_row cfg cs') :: crun_obs cfg cs' rest
+  end.
+
+Definition case := (config * list cop)%type.
 
 Definition run_case (c : case) : list (list Z) :=
   let '(cfg, ops) := c in
-  [max_queue cfg; auto_thr cfg; retention cfg; b2z (has_cb cfg)] :: run_obs cfg init ops.
+  [max_queue cfg; auto_thr cfg; retention cfg; b2z (has_cb cfg)] :: crun_obs cfg cinit ops.
 
 (* ====================================================================== *)
 (* Part 2: lock discipline                                                  *)
